@@ -86,7 +86,7 @@ func verifyFunction(p *Program, fn *ssa.Function, c *Contract) (s *Session, err 
 			}
 		}
 	}()
-	s.trackAlloc = c.Allocates != nil && !c.AllocAssumed
+	s.trackAlloc = (len(c.Allocates) > 0 || len(c.AllocPanic) > 0) && !c.AllocAssumed
 	if s.trackAlloc {
 		s.declare("bytes0", "Int")
 		s.entry["$bytes"] = "bytes0"
@@ -374,6 +374,19 @@ func (f *Frame) checkPost(rs []Val, pos string) {
 		s.addObl(&Obligation{Name: fmt.Sprintf("%s#typeinv(%s)", c.Key(), na.desc), Kind: "typeinv", Guard: and(f.cur.reach, na.reach), Goal: inv, Pos: pos,
 			Clause: "invariant of " + na.desc + " holds for the object allocated at " + na.pos})
 	}
+	// the ghost observers of an object this activation built are defined by the views on its final representation
+	for _, na := range s.newObjs {
+		if s.curBlk != nil && na.blk != nil && !s.ancestors(s.curBlk)[na.blk] {
+			continue
+		}
+		ctx := &EvalCtx{f: f, env: map[string]Val{}, heap: s.plainView(f.cur.heap), old: s.plainView(s.entry), bound: map[string]Val{}, pkg: pkgNameOf(f.fn), where: "type views at allocation"}
+		f.hypMode = true
+		vw := ctx.typeViews(S{na.ref, na.ptrType})
+		f.hypMode = false
+		if vw != "true" {
+			s.fact(implies(and(f.cur.reach, na.reach), vw))
+		}
+	}
 	env := map[string]Val{}
 	for i, n := range resultNames(f.fn.Signature) {
 		if i < len(rs) {
@@ -417,14 +430,28 @@ func (f *Frame) checkPost(rs []Val, pos string) {
 		}
 	}
 	for k, cl := range c.Ensures {
+		if c.TrustedPost {
+			s.assume("postconditions of " + c.Key() + " are trusted (only the safety, frame and allocation obligations of its body are verified): " + cl.Text)
+			continue
+		}
 		goal := f.evalClause(cl, f.cur.heap, s.entry, env)
 		add(&Obligation{Name: fmt.Sprintf("%s#post[%d]", c.Key(), k+1), Kind: "post", Guard: f.cur.reach, Goal: goal, Pos: pos, Clause: cl.Text})
 	}
 	if s.trackAlloc {
-		bound := f.evalExprView(*c.Allocates, s.plainView(f.cur.heap), s.plainView(s.entry), env).(S).T
 		grown := app("-", s.hget(f.cur.heap, "$bytes", "Int"), "bytes0")
-		add(&Obligation{Name: c.Key() + "#alloc", Kind: "alloc", Guard: f.cur.reach, Goal: app("<=", grown, bound), Pos: pos,
-			Clause: "ghost allocation counter grows by at most: " + c.Allocates.Text})
+		for k, ac := range c.Allocates {
+			bound := f.evalExprView(ac.Bound, s.plainView(f.cur.heap), s.plainView(s.entry), env).(S).T
+			goal := app("<=", grown, bound)
+			if ac.Cond != nil {
+				goal = implies(f.evalClause(*ac.Cond, f.cur.heap, s.entry, env), goal)
+			}
+			name := c.Key() + "#alloc"
+			if len(c.Allocates) > 1 {
+				name = fmt.Sprintf("%s#alloc[%d]", c.Key(), k+1)
+			}
+			add(&Obligation{Name: name, Kind: "alloc", Guard: f.cur.reach, Goal: goal, Pos: pos,
+				Clause: "ghost allocation counter grows by at most: " + ac.Text})
+		}
 	}
 	for k, cl := range c.PanicsIf {
 		goal := not(f.evalClause(cl, s.entry, s.entry, nil))
@@ -449,6 +476,19 @@ func (f *Frame) checkPost(rs []Val, pos string) {
 		// positional parameter names of the interface method: arg0, arg1...
 		for i, prm := range f.fn.Params[1:] {
 			g.env[fmt.Sprintf("arg%d", i)] = f.vals[prm]
+		}
+		// the observers the interface contract defines are, by definition, what this method returns
+		for _, cl := range ic.Defines {
+			g.hypMode = true
+			t := g.evalClause(cl, f.cur.heap, s.entry, ienv)
+			g.hypMode = false
+			s.fact(implies(f.cur.reach, t))
+		}
+		for _, cl := range c.Defines {
+			f.hypMode = true
+			t := f.evalClause(cl, f.cur.heap, s.entry, env)
+			f.hypMode = false
+			s.fact(implies(f.cur.reach, t))
 		}
 		for k, cl := range ic.Ensures {
 			goal := g.evalClause(cl, f.cur.heap, s.entry, ienv)
@@ -579,11 +619,15 @@ func (f *Frame) applyContract(sig *types.Signature, ct *Contract, env map[string
 			cur := s.hget(f.cur.heap, "$bytes", "Int")
 			pb := s.freshConst("bytes", "Int")
 			s.fact(app(">=", pb, cur))
-			if ct.AllocPanic != nil {
-				bound := g.evalExprView(*ct.AllocPanic, preView, preView, nil).(S).T
-				s.fact(implies(and(f.cur.reach, pc), app("<=", app("-", pb, cur), bound)))
+			for _, ac := range ct.AllocPanic {
+				bound := g.evalExprView(ac.Bound, preView, preView, nil).(S).T
+				fact := app("<=", app("-", pb, cur), bound)
+				if ac.Cond != nil {
+					fact = implies(evalIn(*ac.Cond, preView, nil), fact)
+				}
+				s.fact(implies(and(f.cur.reach, pc), fact))
 				if ct.AllocAssumed {
-					s.assume("allocation bound of " + calleeName + " on panic is assumed, not verified: " + ct.AllocPanic.Text)
+					s.assume("allocation bound of " + calleeName + " on panic is assumed, not verified: " + ac.Text)
 				}
 			}
 			f.cur.heap["$bytes"] = pb
@@ -652,12 +696,16 @@ func (f *Frame) applyContract(sig *types.Signature, ct *Contract, env map[string
 		s.fact(app(">=", nb, cur))
 		post["$bytes"] = nb
 		lp.havoc["$bytes"] = true
-		if ct.Allocates != nil {
+		for _, ac := range ct.Allocates {
 			// evaluated in the post state so that the bound may mention results and the new position
-			bound := g.evalExprViewFresh(*ct.Allocates, lp.view(), preView, renv, allocBefore)
-			s.fact(implies(f.cur.reach, app("<=", app("-", nb, cur), bound)))
+			bound := g.evalExprViewFresh(ac.Bound, lp.view(), preView, renv, allocBefore)
+			fact := app("<=", app("-", nb, cur), bound)
+			if ac.Cond != nil {
+				fact = implies(evalIn(*ac.Cond, lp.view(), renv), fact)
+			}
+			s.fact(implies(f.cur.reach, fact))
 			if ct.AllocAssumed {
-				s.assume("allocation bound of " + calleeName + " is assumed, not verified: " + ct.Allocates.Text)
+				s.assume("allocation bound of " + calleeName + " is assumed, not verified: " + ac.Text)
 			}
 		}
 	}
